@@ -11,6 +11,7 @@ import (
 
 	"github.com/miekg/dns"
 	"github.com/semihalev/sdns/config"
+	"github.com/semihalev/sdns/internal/authority"
 	"github.com/semihalev/sdns/internal/cache"
 	"github.com/semihalev/sdns/middleware"
 )
@@ -161,4 +162,18 @@ func VerifC07GlueThenLookup(ctx context.Context, resp *dns.Msg, hosts []string, 
 // NewBareVerifC07Resolver: only the configuration switch and the two glue caches.
 func NewBareVerifC07Resolver(ipv6 bool) *Resolver {
 	return &Resolver{cfg: &config.Config{IPv6Access: ipv6}, glueV4: cache.New(256), glueV6: cache.New(256)}
+}
+
+// VerifC07SearchCache seeds a fresh delegation cache with the given zones
+// (client CD = false) and runs Resolver.searchCache for (qname, qtype): which
+// cached zone's servers would be asked, and at which level. "." = the root
+// servers (nothing cached on the way up).
+func VerifC07SearchCache(zones []string, qname string, qtype uint16) (zone string, level int) {
+	r := &Resolver{delegations: authority.NewCache(), rootServers: &authority.Servers{Zone: rootzone}}
+	for _, z := range zones {
+		key := cache.Key(dns.Question{Name: z, Qtype: dns.TypeNS, Qclass: dns.ClassINET}, false)
+		r.delegations.Set(key, nil, &authority.Servers{Zone: z}, time.Hour)
+	}
+	m := r.searchCache(dns.Question{Name: qname, Qtype: qtype, Qclass: dns.ClassINET}, false, qname)
+	return m.servers.Zone, m.level
 }
